@@ -240,8 +240,8 @@ PROPS = {
             dict(mode="live", name="sleep_live", quick=2400, thorough=24000, nontrivial=r" sleep\.sleep_co@\S+ opt\.take 0 0 [0-9]", timeout=600),
             # the C02 park family also serves C08: timed parks of 1 ms .. 2 s (whole seconds included, seeded change C08_d) that are
             # ended by an unpark or by their time-out on the real runtime; oracle: Timeout never before the requested duration
-            dict(mode="live", name="park", quick=300, thorough=4000, nontrivial=r" park\.wait_co@\S+ opt\.take 0 0 [0-9]", timeout=600),
-            dict(mode="live", name="blocker", quick=240, thorough=3000, nontrivial=r"(opt\.take 0 0 [0-9]|ret - blk\.park 1 )", timeout=600),
+            dict(mode="live", name="park", quick=300, thorough=4000, nontrivial=r" park\.wait_co@\S+ opt\.take 0 0 [0-9]", timeout=1800),
+            dict(mode="live", name="blocker", quick=240, thorough=3000, nontrivial=r"(opt\.take 0 0 [0-9]|ret - blk\.park 1 )", timeout=1800),
         ],
         trusted_base=TB_COMMON + [
             "sleep_live (live mode): the recorded trace (a linearization of the hooked operations, logged under one lock) is the replay artefact; schedules come from the OS plus seeded perturbation; replayed by the product of one Cancel model (C09: the model with the steps of Sleep::subscribe / Park::subscribe) per coroutine, the timer being the shared event actor - a taken coroutine is attributed to its component by the pointer value; the timer-list operations in the trace are skipped there (the det families replay those)",
@@ -297,8 +297,8 @@ PROPS = {
     "C02": dict(
         lean_props=["MayVerif.Props.C02"],
         families=[
-            dict(mode="live", name="park", quick=300, thorough=4000, nontrivial=r" park\.wait_co@\S+ opt\.take 0 0 [0-9]", timeout=600),
-            dict(mode="live", name="blocker", quick=240, thorough=3000, nontrivial=r"(opt\.take 0 0 [0-9]|ret - blk\.park 1 )", timeout=600),
+            dict(mode="live", name="park", quick=300, thorough=4000, nontrivial=r" park\.wait_co@\S+ opt\.take 0 0 [0-9]", timeout=1800),
+            dict(mode="live", name="blocker", quick=240, thorough=3000, nontrivial=r"(opt\.take 0 0 [0-9]|ret - blk\.park 1 )", timeout=1800),
             # one unpark per park, untimed parks only, nobody rescues: a lost wake-up is an oracle failure (hang of the round,
             # recorded BEFORE a second unpark checks that the coroutine was alive), not just a delay
             dict(mode="live", name="park_once", quick=1200, thorough=12000, nontrivial=r" park\.wait_co@\S+ opt\.take 0 0 [0-9]", timeout=900),
@@ -306,7 +306,7 @@ PROPS = {
         ] + ([
             # only on a tree with the F6 fix: short timed parks that nobody unparks and nobody rescues, the kernel tail
             # stalled between arming and publication by the perturbation; a lost time-out is a hang report
-            dict(mode="live", name="park_f6", quick=240, thorough=3000, nontrivial=r" park\.wait_co@\S+ opt\.take 0 0 [0-9]", timeout=600),
+            dict(mode="live", name="park_f6", quick=240, thorough=3000, nontrivial=r" park\.wait_co@\S+ opt\.take 0 0 [0-9]", timeout=1800),
         ] if _f6_fixed() else []),
         trusted_base=TB_COMMON + [
             "live mode: the trace is a linearization of the hooked operations (one global log lock); operations that are not hooked in this layer (schedule, the timer list incl. add_timer/del_timer, get_co_para, the AtomicPtr timeout_handle) are silent model steps placed lazily by the replay",
